@@ -118,6 +118,18 @@ def only_comments_and_blanks(text):
     return bool(toks) and all(t in T.Comment or t in T.Whitespace for t, _ in toks) and any(t in T.Comment for t, _ in toks)
 
 
+def comment_only_statement(text):
+    """the script has a statement that consists of comments and blanks only (e.g. a comment on its own line behind the last
+    terminator): the formatter joins the statements without a separator, the comment then follows the terminator on the same
+    line and counts as a trailing comment of the previous statement"""
+    import sqlparse
+    try:
+        pieces = [str(s_) for s_ in sqlparse.parse(text)]
+    except Exception:       # noqa
+        return False
+    return len(pieces) >= 2 and any(only_comments_and_blanks(p_) for p_ in pieces[1:])
+
+
 def separator_stable(text):
     """inserting one blank between two adjacent tokens of the input never changes how the input is lexed.  Scripts of
     the verification grammar are separator-stable (tokens are separated, or are punctuation that lexes alone); token
@@ -159,6 +171,8 @@ def classify_C06(case, failure):
         return 'C06:bounded:GO-terminator-followed-by-more-tokens'
     if what in ('fused-or-split', 'changed') and two_assignments(text):
         return 'C06:bounded:two-assignments-in-one-statement'
+    if what == 'statement-count' and comment_only_statement(text):
+        return 'C06:bounded:comment-only-statement-joined-to-previous'
     if what in ('fused-or-split', 'changed', 'name-altered') and name_with_line_break(text):
         return 'C06:bounded:line-break-inside-bracket-or-backtick-name'
     return None
